@@ -3,6 +3,7 @@ package eng
 import (
 	"bytes"
 	"fmt"
+	"sort"
 
 	"mossverif/model"
 )
@@ -412,7 +413,13 @@ func (g *genState) batch() *model.Batch {
 func (g *genState) childMergeBatch() *model.Batch {
 	var names []string
 	for _, n := range g.tree.ChildNames() {
-		if len(g.tree.Ch[n].KV) > 0 {
+		ok := len(g.tree.Ch[n].KV) > 0
+		for _, sub := range g.tree.Ch[n].Ch {
+			if g.gp.Nested && len(sub.KV) > 0 {
+				ok = true
+			}
+		}
+		if ok {
 			names = append(names, n)
 		}
 	}
@@ -432,13 +439,75 @@ func (g *genState) childMergeBatch() *model.Batch {
 				cb.Ops = append(cb.Ops, model.Op{Kind: 'M', Key: []byte(k), Val: g.val()})
 			}
 		}
-		if len(cb.Ops) == 0 {
+		if len(cb.Ops) == 0 && len(keys) > 0 {
 			cb.Ops = append(cb.Ops, model.Op{Kind: 'M', Key: []byte(keys[0]), Val: g.val()})
+		}
+		if g.gp.Nested {
+			// operands on grandchild keys as well (two levels of child
+			// stacks have to be re-pointed at the lower level)
+			for _, nn := range g.tree.Ch[n].ChildNames() {
+				sk := g.tree.Ch[n].Ch[nn].SortedKeys()
+				if len(sk) == 0 || (len(cb.Ops) > 0 && g.r.Chance(1, 3)) {
+					continue
+				}
+				nb := &model.Batch{}
+				for _, k := range sk {
+					if len(nb.Ops) < 3 && (len(nb.Ops) == 0 || g.r.Chance(1, 2)) {
+						nb.Ops = append(nb.Ops, model.Op{Kind: 'M', Key: []byte(k), Val: g.val()})
+					}
+				}
+				cb.Children = append(cb.Children, model.ChildBatch{Name: nn, B: nb})
+			}
+		}
+		if len(cb.Ops) == 0 && len(cb.Children) == 0 {
+			continue
 		}
 		b.Children = append(b.Children, model.ChildBatch{Name: n, B: cb})
 	}
 	g.tree.Apply(b, MergeFold)
 	return b
+}
+
+// nestedCrossBatches generates three batches for a grandchild collection
+// that has keys: (1) a write to another key of the grandchild (so that the
+// stack handed to the persister carries a stack for it), (2) Merge operands
+// on an existing key of the grandchild whose value lives further down,
+// (3) a write to a larger key of the grandchild (a second segment, so that
+// the merger itself resolves the operand).  Returns nil when there is no
+// grandchild with keys.
+func (g *genState) nestedCrossBatches() []*model.Batch {
+	if !g.gp.Merge || !g.gp.Nested {
+		return nil
+	}
+	for _, n := range g.tree.ChildNames() {
+		for _, nn := range g.tree.Ch[n].ChildNames() {
+			sk := g.tree.Ch[n].Ch[nn].SortedKeys()
+			if len(sk) == 0 {
+				continue
+			}
+			target := sk[0]
+			all := append([]string{}, g.keys...)
+			sort.Strings(all)
+			larger := all[len(all)-1]
+			other := all[len(all)/2]
+			if larger == target || other == target {
+				continue
+			}
+			wrap := func(ops []model.Op) *model.Batch {
+				g.batchNo++
+				b := &model.Batch{Children: []model.ChildBatch{{Name: n, B: &model.Batch{
+					Children: []model.ChildBatch{{Name: nn, B: &model.Batch{Ops: ops}}}}}}}
+				g.tree.Apply(b, MergeFold)
+				return b
+			}
+			return []*model.Batch{
+				wrap([]model.Op{{Kind: 'S', Key: []byte(other), Val: g.uniqueVal()}}),
+				wrap([]model.Op{{Kind: 'M', Key: []byte(target), Val: g.uniqueVal()}}),
+				wrap([]model.Op{{Kind: 'S', Key: []byte(larger), Val: g.uniqueVal()}}),
+			}
+		}
+	}
+	return nil
 }
 
 // recreateBatches generates the batches of a "deleted and recreated with
@@ -718,6 +787,23 @@ func GenProgram(r *Rng, prop string, cfg Config, gp GenParams) *Program {
 				add(Step{K: "batch", B: g.childMergeBatch()})
 				add(Step{K: "merge", A: mergeKind()})
 				add(Step{K: "check"})
+			}
+		}
+		if gp.Nested && gp.Merge && lower && !gp.NoPersistSteps && i > 0 && r.Chance(1, 5) {
+			// a grandchild's value has reached the lower level; the stack
+			// handed to the persister carries a stack for that grandchild;
+			// before the round runs, a Merge operand on that value is
+			// resolved by the merger against the handed-over stack
+			add(Step{K: "merge", A: "plain"})
+			add(Step{K: "persist"})
+			if bs := g.nestedCrossBatches(); bs != nil {
+				add(Step{K: "batch", B: bs[0]})
+				add(Step{K: "merge", A: "plain"})
+				add(Step{K: "batch", B: bs[1]})
+				add(Step{K: "batch", B: bs[2]})
+				add(Step{K: "merge", A: "mergeAll"})
+				add(Step{K: "check"})
+				fresh = false
 			}
 		}
 		if gp.Children && gp.Merge && i > 0 && r.Chance(1, 8) {
